@@ -239,6 +239,9 @@ def run(tier):
     ck.cov['rule'] = ('peers: boundary shapes with real names, every gss-* spelling, names over the RFC 4251 charset, random database names; for each: -M, then -P on the '
                       'same server and on every single-attribute perturbation {add, remove, swap} x {kex, key, enc, mac}, RSA size +-, CA size +-, CA type, cert size, '
                       'modulus +-; expected verdict/fields from TLC (SshPolicy: Create, Load, Errors; laws RoundTrip, Drift); all built-in policies against their own peer')
+    # "every built-in policy is passed by a peer configured exactly as that policy lists" - also when the peer offers the policy's optional host keys
+    from checks import c06
+    c06.builtin_optional_leg(ck, tier)
     return ck.finish()
 
 
